@@ -31,26 +31,27 @@ type deferEntry struct {
 }
 
 type Frame struct {
-	vc       *VC
-	fn       *ssa.Function
-	regs     map[ssa.Value]Val
-	bindings []Val
-	locals   map[*ssa.Alloc]*Cell
-	defers   []*deferEntry
-	depth    int
-	isRoot   bool
-	fc       *FuncContract
-	entry    *State
-	params   []Val
-	blockPC  map[*ssa.BasicBlock]T
-	edgeIn   map[*ssa.BasicBlock][]edge
-	loops    map[*ssa.BasicBlock]*loopInfo
-	exits    []exitPoint
-	stack    []*ssa.Function
-	nopanic  bool
-	tags     []string
-	callOrd  map[string]int
-	dbgVals  map[string]ssa.Value
+	curLoop       *ssa.BasicBlock // header of the loop whose clauses are being evaluated (name resolution of phis)
+	vc            *VC
+	fn            *ssa.Function
+	regs          map[ssa.Value]Val
+	bindings      []Val
+	locals        map[*ssa.Alloc]*Cell
+	defers        []*deferEntry
+	depth         int
+	isRoot        bool
+	fc            *FuncContract
+	entry         *State
+	params        []Val
+	blockPC       map[*ssa.BasicBlock]T
+	edgeIn        map[*ssa.BasicBlock][]edge
+	loops         map[*ssa.BasicBlock]*loopInfo
+	exits         []exitPoint
+	stack         []*ssa.Function
+	nopanic       bool
+	tags          []string
+	callOrd       map[string]int
+	dbgVals       map[string]ssa.Value
 	collectDefers bool
 	pendingRD     []pendingRunDefers
 	curBlock      *ssa.BasicBlock
@@ -724,6 +725,11 @@ func (fr *Frame) allocNested(st *State, t types.Type, ref T, depth int) {
 	}
 	for i := 0; i < sty.NumFields(); i++ {
 		f := sty.Field(i)
+		if f.Name() == "_" {
+			// blank fields (atomic.Uint64{_ noCopy; _ align64; ...}) share one name: they would be "allocated" twice,
+			// which asserted `not alive` of an already alive sub-object (= false) and made the path vacuous
+			continue
+		}
 		switch f.Type().Underlying().(type) {
 		case *types.Struct, *types.Array:
 			sub := vc.subRef(t, f.Name(), ref)
@@ -958,6 +964,9 @@ func (fr *Frame) execInstr(instr ssa.Instruction, st *State, pc T) T {
 			fr.allocHook(in, n, n, st, pc)
 		}
 		fr.set(in, Val{Typ: in.Type(), Ts: []T{ref}})
+	case *ssa.MakeChan:
+		// a channel is a fresh non-nil reference; its buffer and closedness are not modelled (receives are arbitrary)
+		fr.set(in, Val{Typ: in.Type(), Ts: []T{fr.alloc(st, pc, types.Typ[types.Int], "chan", false)}})
 	case *ssa.MapUpdate:
 		fr.mapUpdate(in, st, pc)
 	case *ssa.Lookup:
@@ -1370,6 +1379,13 @@ func (vc *VC) unbox(val T, to types.Type) Val {
 		out[i] = app(un, val)
 	}
 	return Val{Typ: to, Ts: out}
+}
+
+// implementsTerm: uninterpreted predicate "the dynamic type with this tag implements interface t".
+func (vc *VC) implementsTerm(tag T, t types.Type) T {
+	fn := "gv_implements_" + smtName(vc.E.typeStr(t))
+	vc.declareFun(fn, []string{SortBV(64)}, SortBool)
+	return app(fn, tag)
 }
 
 func (fr *Frame) typeAssert(in *ssa.TypeAssert, st *State, pc T) T {
